@@ -100,6 +100,12 @@ def projkey(proj):
     return "+".join(p.replace(":", ".") for p in proj)
 
 
+def setup(tier, seed):
+    """warm-up in the parent (imports, JIT, einsum path caches) so that the forked workers do not repeat it"""
+    case = {"kind": "sys", "struct": "zb", "proj": ["Ga:s", "As:s"], "soc": True, "rs": "R0", "cen": "sites", "nk": 1}
+    run_sys(case, seed)
+
+
 def cases(tier, seed):
     quick = tier == "quick"
     table = QUICK_PROJS if quick else PROJS
